@@ -3,7 +3,7 @@
    store [base] at epoch E (new label / updated node whose previous version is the old latest /
    the old record itself).  The correspondence check evaluates it on every real commit batch. *)
 From Coq Require Import List Bool NArith.
-From Akd Require Import NodeLabel Hashing Tree Store StoreFacts Directory DirFacts.
+From Akd Require Import NodeLabel Hashing Tree Store StoreFacts StoreWrite Directory DirFacts.
 Import ListNotations.
 Open Scope N_scope.
 
@@ -33,3 +33,50 @@ Theorem C11_values_invisible : forall sts news u E,
   (forall s, In s news -> E < vr_epoch s) -> latest_state (sts ++ news) u E = latest_state sts u E.
 Proof. exact latest_state_future. Qed.
 Print Assumptions C11_values_invisible.
+
+(* ---- where the shape comes from, and crashes followed by retries (StoreWrite.v): a node record is
+   written with the node of the new epoch as latest version and, as previous version, the stored
+   record's version AS OF THE EPOCH BEFORE.  Such a record has the shape assumed above; writing it
+   again over the record of an attempt at the same epoch that died half-way gives the same record as
+   a first attempt - so the theorems above cover whatever part of dead attempts and retries has
+   reached storage.  Selecting the previous version as of the node's own epoch (seeded change C11-5)
+   is refuted. *)
+Theorem C11_written_records_have_the_shape : forall base E l n, store_at base E -> sn_le n = E + 1 ->
+  forall r', rotate false (base l) (match base l with None => true | Some _ => false end) l n = Some r' ->
+  commit_shape base E r' = true.
+Proof. exact rotate_shape. Qed.
+Print Assumptions C11_written_records_have_the_shape.
+
+Theorem C11_retry_writes_the_same_record : forall base E l n1 n2 r r1, store_at base E -> base l = Some r ->
+  sn_le n1 = E + 1 -> sn_le n2 = E + 1 ->
+  rotate false (Some r) false l n1 = Some r1 ->
+  rotate false (Some r1) false l n2 = rotate false (Some r) false l n2.
+Proof. exact rotate_again. Qed.
+Print Assumptions C11_retry_writes_the_same_record.
+
+Theorem C11_dead_attempt_and_retry_keep_the_shape : forall base E l n1 n2 r r1 r2, store_at base E -> base l = Some r ->
+  sn_le n1 = E + 1 -> sn_le n2 = E + 1 ->
+  rotate false (Some r) false l n1 = Some r1 -> rotate false (Some r1) false l n2 = Some r2 ->
+  commit_shape base E r1 = true /\ commit_shape base E r2 = true.
+Proof. exact retry_records_keep_shape. Qed.
+Print Assumptions C11_dead_attempt_and_retry_keep_the_shape.
+
+Theorem C11_rotation_as_of_own_epoch_refuted :
+  let l := nl_root in
+  let base : Store.lookup := fun k => if nl_eqb k l then Some (SR l (sn0 1 10) None) else None in
+  exists r1 r2,
+    rotate true (base l) false l (sn0 2 20) = Some r1 /\ rotate true (Some r1) false l (sn0 2 21) = Some r2 /\
+    sr_prev r2 = Some (sn0 2 20) /\ commit_shape base 1 r2 = false /\
+    node_at (overlay [r2] base) l 1 <> node_at base l 1.
+Proof. exact rotate_as_of_own_epoch_refuted. Qed.
+Print Assumptions C11_rotation_as_of_own_epoch_refuted.
+
+(* whatever part of a dead attempt at epoch E+1 and, on top of it, of its retry has reached storage:
+   the tree a reader reconstructs as of E, and every node lookup, are those before the crash *)
+Theorem C11_dead_attempts_and_retries_invisible : forall fuel base E dead retry l,
+  (forall r, In r dead -> commit_shape base E r = true) ->
+  (forall r, In r retry -> commit_shape base E r = true) ->
+  view fuel (overlay retry (overlay dead base)) E l = view fuel base E l /\
+  (forall k, node_at (overlay retry (overlay dead base)) k E = node_at base k E).
+Proof. exact dead_attempts_and_retries_invisible. Qed.
+Print Assumptions C11_dead_attempts_and_retries_invisible.
